@@ -11,18 +11,27 @@
 (* TLC run checks many compilations.                                       *)
 (*                                                                         *)
 (* The specification is an abstract interpreter over the control-flow      *)
-(* graph of each block.  An abstract state is (instruction, env, bind,     *)
-(* args):                                                                  *)
+(* graph of each block.  An abstract state is (instruction, context, env,  *)
+(* bind, args):                                                            *)
 (*   env   length of the environment chain above the frame's env_fp,       *)
 (*   bind  length of the frame's binding-reference stack,                  *)
-(*   args  length of the value stack above the register file.              *)
+(*   args  length of the value stack above the register file,              *)
+(*   context  constants held by the JumpTable index registers (see below). *)
 (* `OpTable` (module CodeBlockOps, generated from the engine source) gives *)
 (* for every opcode the role of each operand and the abstract effect.      *)
-(* `seen` records the depths with which each instruction was first         *)
-(* reached; every later arrival must agree (paths merge).  Exceptional     *)
+(* `seen` records, per instruction and context, the depths of the first    *)
+(* arrival; every later arrival must agree (paths merge).  Exceptional     *)
 (* edges go from every instruction that can raise inside [start,end) of    *)
 (* the innermost handler (the VM searches the handler list from the back)  *)
 (* to the handler address, with env := handler.environment_count.          *)
+(*                                                                         *)
+(* Actions: StartBlock (structural checks of one block: decoding, operand  *)
+(* ranges, jump/handler targets, tables), Step (expand one abstract state: *)
+(* preconditions of the instruction, normal and exceptional successors),   *)
+(* FinishBlock.  GetFunction and the global function table schedule the     *)
+(* child block with the absolute environment depth at which its closure is *)
+(* created, so binding locators (absolute environment indices) can be      *)
+(* checked against the chain that exists when they are used.               *)
 (*                                                                         *)
 (* Every condition of the property is a named predicate; a failing         *)
 (* predicate adds a record to `viol` and the interpretation continues      *)
@@ -33,10 +42,12 @@
 (* Pinned-tree fact (DESIGN.md C03): `Vm::handle_exception_at` restores    *)
 (* the environment depth but neither the value stack nor the binding-      *)
 (* reference stack, so an exceptional edge may arrive with MORE entries    *)
-(* than the depth at the handler's `start`.  The model continues behind    *)
-(* the landing pad with the depth at `start`, requires arrival >= that     *)
-(* depth, and reports "more" as the classes handler-leftover /             *)
-(* handler-leftover-bind (known findings); fewer is a violation.           *)
+(* than the handler was set up with (the depths with which this path       *)
+(* passed the handler's `start`, carried in the abstract state as `hd`).   *)
+(* The model continues behind the landing pad with the set-up depths,      *)
+(* requires arrival >= those depths, and reports "more" as the classes     *)
+(* handler-leftover / handler-leftover-bind (known findings); fewer is a   *)
+(* violation.                                                              *)
 (***************************************************************************)
 EXTENDS Integers, Sequences, FiniteSets, TLC, Json, IOUtils, SequencesExt, CodeBlockOps
 
@@ -59,7 +70,7 @@ VARIABLES comp,     \* the compilation under analysis
           work,     \* pending abstract states <<i, jt, env, bind, args, source pc, hd>>: i = instruction index, jt = jump-table
                     \* context, hd[h] = <<bind, args>> with which this path passed the start of handler h (<<>>: not passed)
           landed,   \* abstract states behind landing pads already scheduled (so that each is explored once)
-          seen,     \* i -> set of <<jt, env, bind, args>>: one entry per context the instruction was reached in
+          seen,     \* i -> set of <<jt, env, bind, args, source pc>>: the first arrival in each context
           viol,     \* violations found: <<kind, block, pc, info>>
           nvis, nexc, nmrg  \* counters: abstract states expanded, exceptional edges examined, re-arrivals compared
 vars == <<comp, phase, todo, doneB, cur, tr, rg, work, landed, seen, viol, nvis, nexc, nmrg>>
@@ -89,11 +100,17 @@ AddAll(f, S, v) == IF S = {} THEN f ELSE LET j == CHOOSE j \in S : TRUE IN AddAl
 -----------------------------------------------------------------------------
 (* Structural part: decoding, operand ranges, jump and handler targets.  No effect table needed. *)
 
+(* Registers with a fixed meaning: r0 = undefined, r1..r3 = promise capability (async), r4 = async generator object. *)
+Reserved(B) == 1 + (IF B.async THEN 3 ELSE 0) + (IF B.async /\ B.gen THEN 1 ELSE 0)
+NProlog(B) == (IF B.bindid THEN 1 ELSE 0) + (IF B.fscope THEN 1 ELSE 0)
+
 ConstKind(B, v) == IF v >= 0 /\ v < Len(B.consts) THEN B.consts[v + 1].k ELSE "none"
 
 RoleViol(B, ins, r) ==
   LET v == ins.a[r[1]]  role == r[3] IN
-  CASE role = "reg"   -> IF v >= 0 /\ v < B.nreg THEN {} ELSE {<<"reg-range", ins.pc, <<v, B.nreg>>>>}
+  CASE role = "reg"   -> (IF v >= 0 /\ v < B.nreg THEN {} ELSE {<<"reg-range", ins.pc, <<v, B.nreg>>>>})
+                         \* r0 (undefined) and the promise-capability / async-generator registers are never a destination
+                         \cup (IF r[1] = "dst" /\ v >= 0 /\ v < Reserved(B) THEN {<<"reserved-register-written", ins.pc, <<v>>>>} ELSE {})
     [] role = "regs"  -> {<<"reg-range", ins.pc, <<v[k], B.nreg>>>> : k \in {k \in 1..Len(v) : ~(v[k] >= 0 /\ v[k] < B.nreg)}}
     [] role = "str"   -> IF ConstKind(B, v) = "s" THEN {} ELSE {<<"const-kind-string", ins.pc, <<v, Len(B.consts)>>>>}
     [] role = "strs"  -> {<<"const-kind-string", ins.pc, <<v[k], Len(B.consts)>>>> : k \in {k \in 1..Len(v) : ConstKind(B, v[k]) # "s"}}
@@ -132,8 +149,6 @@ HandlerViol(B) ==
          : k \in 1..Len(B.handlers)}
 
 (* Tables the VM reads outside the instruction stream. *)
-Reserved(B) == 1 + (IF B.async THEN 3 ELSE 0) + (IF B.async /\ B.gen THEN 1 ELSE 0)
-NProlog(B) == (IF B.bindid THEN 1 ELSE 0) + (IF B.fscope THEN 1 ELSE 0)
 TableViol(B) ==
   (IF B.nreg < Reserved(B) THEN {<<"reserved-registers", 0, <<B.nreg, Reserved(B)>>>>} ELSE {})
   \cup {<<"global-lex-const", 0, <<B.glex[k]>>>> : k \in {k \in 1..Len(B.glex) : ConstKind(B, B.glex[k]) # "s"}}
@@ -290,11 +305,14 @@ StartBlock ==
 (* Scheduling: the pending abstract state with the smallest total depth first, the most recently pushed among equals
    (depth-first, fall-through before jump targets).  Order does not change what is reachable; it makes the first
    arrival at a merge point the shallowest one, so that a path that leaks is reported once, where it joins, and the
-   leak is not propagated downstream as a chain of secondary disagreements. *)
+   leak is not propagated downstream as a chain of secondary disagreements.  `work` is kept sorted by that key. *)
 Key(w) == w[3] + w[4] + w[5]
-MinKey(wk) == CHOOSE v \in {Key(wk[k]) : k \in 1..Len(wk)} : \A u \in {Key(wk[k]) : k \in 1..Len(wk)} : v <= u
-Pick(wk) == LET mk == MinKey(wk) IN CHOOSE k \in 1..Len(wk) : Key(wk[k]) = mk /\ \A m \in 1..(k - 1) : Key(wk[m]) # mk
-Without(wk, k) == SubSeq(wk, 1, k - 1) \o SubSeq(wk, k + 1, Len(wk))
+Insert(wk, item) ==
+  LET pos == Cardinality({k \in 1..Len(wk) : Key(wk[k]) < Key(item)})
+  IN SubSeq(wk, 1, pos) \o <<item>> \o SubSeq(wk, pos + 1, Len(wk))
+RECURSIVE InsertAll(_, _)
+InsertAll(wk, items) ==      \* the first of `items` ends up in front of the others of equal key
+  IF items = <<>> THEN wk ELSE Insert(InsertAll(wk, Tail(items)), Head(items))
 
 (***************************************************************************)
 (* Exceptional edge from `ins` (reached with jt, e, b, a) into handler h.  *)
@@ -322,8 +340,8 @@ Landing(B, h, hd, jt, ins, bx, ax) ==      \* abstract state behind the landing 
 Step ==
   /\ phase = "flow" /\ work # <<>>
   /\ LET B == Blk(comp, cur[1])  base == cur[2]
-         pk == Pick(work)  rest == Without(work, pk)
-         w == work[pk]  i == w[1]  jt == w[2]  e == w[3]  b == w[4]  a == w[5]  src == w[6]  hd == w[7]
+         rest == Tail(work)
+         w == Head(work)  i == w[1]  jt == w[2]  e == w[3]  b == w[4]  a == w[5]  src == w[6]  hd == w[7]
          ins == B.code[i]
          prior == Prior(seen, i, jt)
      IN IF prior # {}
@@ -358,28 +376,42 @@ Step ==
             ev == UNION {EdgeViol(B, h, hd2, ins, e, bx, ax) : h \in hs}
             lands == {Landing(B, h, hd2, jt, ins, bx, ax) : h \in hs}
             fresh == {l \in lands : l[1] # 0 /\ <<l[1], l[2], l[3], l[4], l[5]>> \notin landed}
-        IN /\ seen' = [seen EXCEPT ![i] = @ \cup {<<jt, e, b, a, src>>}]
-           /\ work' = (IF jn \in js THEN <<<<jn, EdgeCtx(tr, rg, jt2, ins.pc, B.code[jn].pc), e2, b2, a2, ins.pc, hd2>>>> ELSE <<>>)
-                      \o SetToSeq({<<j, EdgeCtx(tr, rg, jt2, ins.pc, B.code[j].pc), e2, b2, a2, ins.pc, hd2>> : j \in js \ {jn}})
-                      \o SetToSeq(fresh) \o rest
+            seen2 == [seen EXCEPT ![i] = @ \cup {<<jt, e, b, a, src>>}]
+            \* candidate successor states, fall-through first; one that was reached before in its context is compared
+            \* with the first arrival right away, the others are scheduled
+            cands == (IF jn \in js THEN <<<<jn, EdgeCtx(tr, rg, jt2, ins.pc, B.code[jn].pc), e2, b2, a2, ins.pc, hd2>>>> ELSE <<>>)
+                     \o SetToSeq({<<j, EdgeCtx(tr, rg, jt2, ins.pc, B.code[j].pc), e2, b2, a2, ins.pc, hd2>> : j \in js \ {jn}})
+                     \o SetToSeq(fresh)
+            known == {k \in 1..Len(cands) : Prior(seen2, cands[k][1], cands[k][2]) # {}}
+            mv == UNION {Disagree(B, cands[k][1], Prior(seen2, cands[k][1], cands[k][2]), cands[k][3], cands[k][4], cands[k][5], ins.pc)
+                         : k \in known}
+        IN /\ seen' = seen2
+           /\ work' = InsertAll(rest, SelectSeq(cands, LAMBDA c : Prior(seen2, c[1], c[2]) = {}))
            /\ landed' = landed \cup {<<l[1], l[2], l[3], l[4], l[5]>> : l \in fresh}
-           /\ viol' = viol \cup Tag(cur[1], PreViol(B, base, ins, row, e, b, a) \cup bad \cup sv \cup ev)
+           /\ viol' = viol \cup Tag(cur[1], PreViol(B, base, ins, row, e, b, a) \cup bad \cup sv \cup ev \cup mv)
+           /\ nmrg' = nmrg + Cardinality(known)
            /\ todo' = todo \cup (Children(B, base, ins, row, e) \ (doneB \cup {cur}))
            /\ nvis' = nvis + 1
            /\ nexc' = nexc + Cardinality(hs)
-           /\ UNCHANGED <<comp, phase, doneB, cur, tr, rg, nmrg>>
+           /\ UNCHANGED <<comp, phase, doneB, cur, tr, rg>>
 
 DepthRows(B) == [i \in 1..Len(B.code) |-> <<B.code[i].pc>> \o SetToSeq({<<y[2], y[3], y[4]>> : y \in seen[i]})]
 
+(* A block nobody instantiates through GetFunction or the global function table (module-level function declarations,
+   which the module environment instantiates natively) is analysed too, without absolute environment positions. *)
 FinishBlock ==
   /\ phase = "flow" /\ work = <<>>
-  /\ doneB' = doneB \cup {cur}
-  /\ phase' = IF todo = {} THEN "done" ELSE "next"
+  /\ LET done2 == doneB \cup {cur}
+         rem == {b \in 1..Len(Dump[comp].blocks) : \A p \in done2 \cup todo : p[1] # b}
+     IN /\ doneB' = done2
+        /\ IF todo = {} /\ rem # {}
+           THEN /\ todo' = {<<CHOOSE b \in rem : \A q \in rem : b <= q, -1>>} /\ phase' = "next"
+           ELSE /\ todo' = todo /\ phase' = IF todo = {} THEN "done" ELSE "next"
   /\ IF EmitDepths(comp)
      THEN PrintT(<<"DEPTHS", ToJson([c |-> comp, b |-> cur[1], base |-> cur[2], id |-> Blk(comp, cur[1]).id,
                                      d |-> DepthRows(Blk(comp, cur[1]))])>>)
      ELSE TRUE
-  /\ UNCHANGED <<comp, todo, cur, tr, rg, work, landed, seen, viol, nvis, nexc, nmrg>>
+  /\ UNCHANGED <<comp, cur, tr, rg, work, landed, seen, viol, nvis, nexc, nmrg>>
 
 Next == StartBlock \/ Step \/ FinishBlock
 Spec == Init /\ [][Next]_vars
